@@ -2,6 +2,7 @@
 import time
 import z3
 from .values import *
+from . import models   # noqa: F401  (fixes the import order of the model modules)
 from .engine import Ctx, Interp
 
 
